@@ -296,19 +296,19 @@ class Logics:
             ext = (ext,)
         if not isinstance(ext, tuple) or not all(isinstance(x, str) for x in ext):
             raise AnalysisError(f'{mod}.Meta.extension_of not literal: {ext}')
-        # LogicMetaMeta.__new__ merges native_operators over the Meta bases: union over the MRO
-        natset = []
-        for c in m.mro(Meta):
-            ns_ = m.clsns(c)
-            if 'native_operators' in ns_:
-                nat = m.force(ns_['native_operators'])
-                if isinstance(nat, tuple):
-                    for x in nat:
-                        if isinstance(x, EnumRef) and x.member not in natset:
-                            natset.append(x.member)
-                elif c.module != LOGICS:
-                    raise AnalysisError(f'{c}.native_operators not a literal sequence: {nat}')
-        natnames = tuple(natset)
+        # what LogicMetaMeta.__new__ derives (native operators merged over the Meta bases, many_valued, ...) is read off the
+        # class object the *folded* metaclass leaves behind (sa.metafold), bases first -- not re-implemented here
+        from .metafold import MetaFolder
+        if not hasattr(self, '_metafolder'):
+            self._metafolder = MetaFolder(m, self.lex)
+
+        def values_of(vc):
+            return [k for k, v in m.clsns(vc).items() if isinstance(m.force(v), float) and not k.startswith('_')]
+        folded = self._metafolder.fold(Meta, values_of)
+        natnames = tuple(str(x) for x in getattr(folded, 'native_operators', ()))
+        mv = getattr(folded, 'many_valued', None)
+        if not isinstance(mv, bool):
+            raise AnalysisError(f'{mod}.Meta.many_valued is not derived by LogicMetaMeta.__new__ (folded): {mv!r}')
         tfcls = m.getattr(ModelC, 'TruthFunction')
         acc = m.getattr(ModelC, 'Access')
         if not isinstance(tfcls, ClassRef) or not isinstance(acc, ClassRef):
@@ -324,7 +324,7 @@ class Logics:
                      modal=modal, quantified=bool(g('quantified', False)), valcls=valcls, values=values,
                      designated=frozenset(des), unassigned=un, extension_of=tuple(ext), native_operators=natnames,
                      tfcls=tfcls, accesscls=acc, closure=list(closure), groups=[list(x) for x in groups],
-                     many_valued=len(values) != 2)
+                     many_valued=mv)
 
     # ---- totals (floors) -------------------------------------------------------
     def totals(self):
